@@ -99,6 +99,8 @@ def plan(tier, seed):
     add('pat', 'rt', 3000 if q else 90000, 2 if q else 3)
     add('fuzz', 'rt', 45000 if q else 1200000, 3 if q else 6)
     add('fuzzudp', 'rt', 2000 if q else 40000, 1)
+    add('tcp', 'rt', 1200 if q else 30000, 1 if q else 2)
+    add('midi', 'nrt', 3000 if q else 100000, 1 if q else 2)
     add('reg', 'nrt', 6000 if q else 200000, 1 if q else 2)
     return shards
 
@@ -114,6 +116,12 @@ def run_shard(spec, acc):
     elif kind in ('fuzz', 'fuzzudp'):
         from vf import c18_fuzz
         c18_fuzz.run(spec, acc, udp=(kind == 'fuzzudp'))
+    elif kind == 'tcp':
+        from vf import c18_tcp
+        c18_tcp.run(spec, acc)
+    elif kind == 'midi':
+        from vf import c18_midi
+        c18_midi.run(spec, acc)
     elif kind == 'reg':
         from vf import c18_reg
         c18_reg.run(spec, acc)
